@@ -17,11 +17,11 @@ PROPS["C07"] = {
                      J("c07", 3, depth=4, deadline=60), J("c07", 4, depth=4, deadline=60), J("c07conv")],
         "thorough": [J("c07", 0, depth=40), J("c07", 1, depth=40), J("c07", 2, depth=40, opts={"kinds": 1, "times": 3}, deadline=600),
                      J("c07", 2, depth=40, opts={"kinds": 2, "times": 3}, deadline=900, max_states=40000000),
-                     J("c07", 2, depth=6, deadline=900, max_states=40000000), J("c07", 3, depth=5, deadline=900, max_states=40000000),
-                     J("c07", 4, depth=5, deadline=900, max_states=40000000), J("c07conv")],
+                     J("c07", 2, depth=6, deadline=900, max_states=40000000), J("c07", 3, depth=6, deadline=900, max_states=40000000),
+                     J("c07", 4, depth=7, deadline=900, max_states=40000000), J("c07conv")],
     },
-    "bounds": {"quick": "pool 1,2: fixpoint; pool 3: depth 7; pool 4: depth 5; pool 16: depth 4",
-               "thorough": "pool 1,2: fixpoint; pool 3: depth 12; pool 4: depth 8; pool 16: depth 6"},
+    "bounds": {"quick": "pool 1,2: fixpoint; pool 3: fixpoint for plain callbacks (times <= 3), depth 4 with all callback kinds; pool 4: depth 4; pool 16: depth 4",
+               "thorough": "pool 1,2: fixpoint; pool 3: fixpoint for plain and self-deleting callbacks, depth 6 with all kinds; pool 4: depth 6; pool 16: depth 7 (or the 900 s deadline, reported)"},
 }
 
 COV = ["-O0", "-fsanitize-coverage=trace-pc-guard,trace-loads,trace-stores"]
@@ -35,7 +35,7 @@ PROPS["C08"] = {
     "jobs": {
         "quick":    [C08(0, depth=40), C08(1, depth=40), C08(6, depth=40), C08(7, depth=40), C08(2, depth=6, deadline=60), C08(5, depth=5, deadline=60)],
         "thorough": [C08(0, depth=40), C08(1, depth=40), C08(3, depth=40), C08(4, depth=40), C08(6, depth=40), C08(7, depth=40),
-                     C08(2, depth=10, deadline=900, max_states=40000000), C08(5, depth=9, deadline=900, max_states=40000000), C08(8, depth=9, deadline=900, max_states=40000000)],
+                     C08(2, depth=11, deadline=900, max_states=40000000), C08(5, depth=10, deadline=900, max_states=40000000), C08(8, depth=10, deadline=900, max_states=40000000)],
     },
 }
 
@@ -131,8 +131,8 @@ PROPS["C11"] = {
     "note": "'already monitored' is read literally (any entry, including the written one, configured with that node and a non-zero time); depth-bounded",
     "jobs": {
         "quick": [J("c11", 0, depth=8, deadline=100), J("c11", 1, depth=6, deadline=100), J("c11", 2, depth=6, deadline=100), J("c11", 3, depth=5, deadline=100), J("c11", 4, depth=5, deadline=100), J("c11", 5, depth=5, deadline=100)],
-        "thorough": [J("c11", 0, depth=12, deadline=1200), J("c11", 1, depth=8, deadline=1200, max_states=30000000), J("c11", 2, depth=8, deadline=1200, max_states=30000000),
-                     J("c11", 3, depth=7, deadline=1200, max_states=30000000), J("c11", 4, depth=7, deadline=1200, max_states=30000000), J("c11", 5, depth=6, deadline=1200, max_states=30000000)],
+        "thorough": [J("c11", 0, depth=14, deadline=1200), J("c11", 1, depth=9, deadline=1200, max_states=30000000), J("c11", 2, depth=9, deadline=1200, max_states=30000000),
+                     J("c11", 3, depth=8, deadline=1200, max_states=30000000), J("c11", 4, depth=8, deadline=1200, max_states=30000000), J("c11", 5, depth=7, deadline=1200, max_states=30000000)],
     },
 }
 
@@ -292,11 +292,13 @@ def c01_jobs(quick):
     jobs += [J("c15", 4, defs=E8, depth=5 if quick else 7, deadline=dl, opts=SAFE), J("c15", 2, depth=40, deadline=dl, opts=SAFE)]
     jobs += [J("c18", 0, depth=6 if quick else 9, deadline=dl, opts=SAFE), J("c18", 1, depth=60, deadline=dl, opts=S({"part": 2, "small": 1}))]
     jobs += [J("c17", 7, deadline=dl, opts=SAFE), J("c20", 0, depth=3 if quick else 4, deadline=dl, opts=SAFE), J("c20", 3, depth=3 if quick else 4, deadline=dl, opts=SAFE)]
+    # SDO client against every deviating server (user buffers are exact-size heap blocks), NMT/gating alphabet with a timer-driven TPDO
+    jobs += [J("c19", c, deadline=dl, opts=SAFE) for c in (0, 1, 14, 15, 24, 25)] + [J("c09", 4, depth=80, deadline=dl, opts=SAFE)]
     return jobs
 PROPS["C01"] = {
     "level": "model_checking",
     "technique": "explicit-state exploration of the sanitizer-instrumented implementation per service cluster (closed state space for the scaled SDO server, depth bounds elsewhere) plus an exhaustive sweep over all subsets of the optional dictionary groups; only the safety monitor judges",
-    "text": "Every exploration of every other property runs on an ASan+UBSan build with the safety monitor (sanitizer report, fatal-error callback, per-step CPU watchdog for unbounded loops, <= CO_SDO_BUF_SEG+2 frames per step, balanced timer lock) - C01 re-runs one representative of each cluster in safety-only mode with wider alphabets: (1) dictionary subsets: all 27648 combinations of {1003h, 1005h with/without 1006h or producing, 1014h, 1016h ok / count larger than the entries, 1017h, 1200h fixed / writable, 1280h, RPDO0 absent / communication record only / asynchronous / synchronous, RPDO1 synchronous, TPDO0 likewise, TPDO1} at three timer frequencies; for each, CONodeInit + start and every sequence of <= 2 (thorough: 3) of 56 events: NMT commands incl. DLC 0, ticks, SDO requests to every optional object incl. DLC 0 and 3, RPDO/SYNC/heartbeat/LSS/foreign frames with short DLC, TPDO triggers incl. out-of-range numbers, EMCY calls incl. an index beyond the table, SDO client request/response, failing CAN send, CAN read error, open segmented/block transfers; (2) SDO server: the closed state space of the 3-segment build and depth-bounded runs of the real 127-segment buffer and of CO_SSDO_N=2, each with truncated request frames added, a run whose state identity keeps the cursors and counters finished transfers leave behind, and the conforming download/upload dialogues of C02/C03 on the real buffer from the initial state and after completed or abandoned earlier transfers; (3) timer manager with the tick interrupt injected at every preemption point; (4) heartbeat consumer tables, heartbeat producer interference alphabet, all RPDO tables with a synchronous RPDO above an absent/asynchronous channel, all RPDO/TPDO mapping compositions incl. dummies, PDO reconfiguration histories, EMCY, LSS (full alphabet), parameter store/restore with NVM faults, and the mixed reset alphabet of C20.",
+    "text": "Every exploration of every other property runs on an ASan+UBSan build with the safety monitor (sanitizer report, fatal-error callback, per-step CPU watchdog for unbounded loops, <= CO_SDO_BUF_SEG+2 frames per step, balanced timer lock) - C01 re-runs one representative of each cluster in safety-only mode with wider alphabets: (1) dictionary subsets: all 27648 combinations of {1003h, 1005h with/without 1006h or producing, 1014h, 1016h ok / count larger than the entries, 1017h, 1200h fixed / writable, 1280h, RPDO0 absent / communication record only / asynchronous / synchronous, RPDO1 synchronous, TPDO0 likewise, TPDO1} at three timer frequencies; for each, CONodeInit + start and every sequence of <= 2 (thorough: 3) of 56 events: NMT commands incl. DLC 0, ticks, SDO requests to every optional object incl. DLC 0 and 3, RPDO/SYNC/heartbeat/LSS/foreign frames with short DLC, TPDO triggers incl. out-of-range numbers, EMCY calls incl. an index beyond the table, SDO client request/response, failing CAN send, CAN read error, open segmented/block transfers; (2) SDO server: the closed state space of the 3-segment build and depth-bounded runs of the real 127-segment buffer and of CO_SSDO_N=2, each with truncated request frames added, a run whose state identity keeps the cursors and counters finished transfers leave behind, and the conforming download/upload dialogues of C02/C03 on the real buffer from the initial state and after completed or abandoned earlier transfers; (3) timer manager with the tick interrupt injected at every preemption point; (4) heartbeat consumer tables, heartbeat producer interference alphabet, all RPDO tables with a synchronous RPDO above an absent/asynchronous channel, all RPDO/TPDO mapping compositions incl. dummies, PDO reconfiguration histories, EMCY, LSS (full alphabet), parameter store/restore with NVM faults, the mixed reset alphabet of C20, the SDO client against every deviating server behaviour of C19 (smallest and largest size shards, both directions) and the NMT alphabet of C09 with a timer-driven TPDO.",
     "note": "payload values outside the representatives are not enumerated (control fields and sizes are); histories longer than the bounds where no fixpoint is reached; API misuse (NULL arguments, mode values outside the enum) is outside the statement; the watchdog treats 4 s of CPU time without progress as an unbounded loop",
     "jobs": {"quick": c01_jobs(True), "thorough": c01_jobs(False)},
 }
